@@ -362,4 +362,15 @@ pub mod verif_hooks {
     ) -> Result<(Vec<u64>, Vec<u64>), VerificationError> {
         super::verify_with_history_params(current_epoch, akd_label, proof, params)
     }
+
+    /// [super::verify_single_update_proof]
+    pub fn verify_single_update_proof<TC: Configuration>(
+        root_hash: Digest,
+        vrf_public_key: &[u8],
+        proof: UpdateProof,
+        akd_label: &AkdLabel,
+        params: HistoryVerificationParams,
+    ) -> Result<VerifyResult, VerificationError> {
+        super::verify_single_update_proof::<TC>(root_hash, vrf_public_key, proof, akd_label, params)
+    }
 }
